@@ -7,8 +7,8 @@ the result is that of the first one that does not say TraitError, exactly what
 the alternative gives on its own.
 -/
 import TraitsVerif.Lemmas.ValAgree
-namespace TraitsVerif.Model
-open TraitsVerif TraitsVerif.Py
+namespace TraitsVerif.Model.Val
+open TraitsVerif TraitsVerif.Py.Value
 
 variable (E : Env)
 
@@ -113,4 +113,4 @@ theorem either_first (hE : CastIdem E) (alts : List TraitType) (wn : Bool) (d : 
       · have ha' : anySlow E alts = false := by simpa using ha
         simp [ha', firstAccept, pySel_false_of_not_anySlow E alts v ha']
 
-end TraitsVerif.Model
+end TraitsVerif.Model.Val
